@@ -1,0 +1,74 @@
+//go:build verif
+
+package help
+
+// Machine-checked contracts for govc (the VC generator in /verif/govc).
+// This file contains comments only; it is compiled into nothing.
+
+// A string->string function value (what wrapFn returns): applying it has no side effect; its result is named strfn(f, s).
+//@ func type func(s string) string
+//@   props C18 C19
+//@   modifies
+//@   ensures result == strfn($fn, s)
+//@ end
+
+// wrapFn: two-case wrapper (trusted: the body only builds the closure).
+//@ func wrapFn
+//@   props C18 C19
+//@   trusted
+//@   modifies
+//@   ensures wrap.nonnil: result != nil
+//@   ensures wrap.fn {C18}: forall s string :: strfn(result, s) == ite(wrap, open ++ s ++ close, s)
+
+//@ func indent
+//@   props C18 C19
+//@   modifies
+//@   ensures indent.text {C18}: result == repeat(" ", Indentation) ++ s
+
+// pad: fmt's "%-Ns" left-justifies, i.e. the text stays a prefix of the result (trusted formatting semantics).
+//@ func pad
+//@   props C18 C19
+//@   trusted
+//@   modifies
+//@   ensures pad.off {C18}: !do ==> result == s
+//@   ensures pad.on {C18}: do ==> hasprefix(result, s)
+
+// Synopsis entry of one option (C18): every kind is mentioned; required options are not bracketed.
+//@ spec func IsListKind(t option.Type) bool = t == option.StringRepeatType || t == option.IntRepeatType || t == option.Float64RepeatType || t == option.StringMapType
+//@ func Synopsis$1
+//@   props C18 C19
+//@   requires syn.opt: opt != nil
+//@   modifies
+//@   ensures syn.mentions {C18}: KindOK(opt.OptType) ==> contains(result, opt.HelpSynopsis)
+//@   ensures syn.optional {C18}: KindOK(opt.OptType) && !opt.IsRequired ==> hasprefix(result, "[" ++ opt.HelpSynopsis ++ "]")
+//@   ensures syn.required.scalar {C18}: KindOK(opt.OptType) && opt.IsRequired && !IsListKind(opt.OptType) ==> result == opt.HelpSynopsis
+//@   ensures syn.required.list {C18}: KindOK(opt.OptType) && opt.IsRequired && IsListKind(opt.OptType) ==> result == "<" ++ opt.HelpSynopsis ++ ">" ++ "..."
+
+// One entry of the option list (C18): the synopsis with all aliases, the default of every non-required option,
+// the environment variable of every bound one.
+//@ func OptionList$1
+//@   props C18 C19
+//@   requires list.opt: opt != nil
+//@   modifies
+//@   ensures list.mentions {C18}: contains(result, opt.HelpSynopsis)
+//@   ensures list.default {C18}: !opt.IsRequired ==> contains(result, "(default: " ++ opt.DefaultStr)
+//@   ensures list.env {C18}: opt.EnvVar != "" ==> contains(result, "env: " ++ opt.EnvVar)
+
+// Section renderers: pure functions of their arguments (frame only; the per-entry contracts are Synopsis$1 / OptionList$1).
+//@ func Name
+//@   props C18 C19
+//@   modifies
+//@ func Synopsis
+//@   props C18 C19
+//@   trusted
+//@   requires forall i int :: 0 <= i && i < len(options) ==> options[i] != nil
+//@   modifies
+//@ func CommandList
+//@   props C18 C19
+//@   trusted
+//@   modifies
+//@ func OptionList
+//@   props C18 C19
+//@   trusted
+//@   requires forall i int :: 0 <= i && i < len(options) ==> options[i] != nil
+//@   modifies
